@@ -156,7 +156,7 @@ def jobs(tier):
     if q:
         combos = [(f, 1, 1, 1) for f in ("oid", "path")] + [(f, 2, 1, 0) for f in ("oid",)]
     else:
-        combos = [("oid", 1, 1, 1), ("path", 1, 1, 1), ("mixed", 1, 1, 1), ("oid-ci", 1, 1, 1), ("oid", 2, 1, "round"), ("oid", 2, 1, 0)]
+        combos = [("oid", 1, 1, 1), ("path", 1, 1, 1), ("mixed", 1, 1, 1), ("oid-ci", 1, 1, 1), ("oid", 2, 1, 0)]
     # focused families; quick: the other side does one fixed unrelated thing (create /n); thorough: anything disjoint
     pr = {"prefixR": [6], "pool": 18}        # (the other side creates /n; letting it do anything disjoint made the thorough run exceed 50 minutes)
     pr4 = {"prefixR": [6]}
@@ -184,7 +184,7 @@ def jobs(tier):
     for f, nl, nr, sl in combos:
         p = {"flavour": f, "nl": nl, "nr": nr, "slots": sl}
         if not q:
-            p["pool"] = 12 if (nl, nr) == (2, 2) else 18
+            p["pool"] = 16 if (nl, nr) == (2, 1) else 18
         if sl == "round":
             p.update(slots=1, slotmode="round")
         if q:
@@ -199,7 +199,7 @@ def meta(tier):
                        "integers constrained so that the object sets touched by the two sides (closed under ancestor/descendant) are disjoint; z3 enumerates the satisfying assignments, "
                        "all interleavings of the two sequences and all schedule slots; the real engine runs on each and both quiet-state trees must equal a pure reference tree "
                        "(base + both deltas), with no '.conflicted' name.",
-        "bounds": {"operations": [o[:3] for o in OPS], "per side": "quick: 1+1 (2 flavours) and 2+1 (object ids) over the first 16 operations; focused 3+1 families (folder renamed and both names used; new folder, folder moved into it, name re-used) and 2+1 from a base with two synchronised folders, all 18 operations; thorough: 18 operations; 1+1 x 1 slot on 4 flavours, 2+1 with a coarse slot (nothing / one fair round) and without slots on object ids; the focused families with any disjoint operation on the other side", "slots": "1 (2)"},
+        "bounds": {"operations": [o[:3] for o in OPS], "per side": "quick: 1+1 (2 flavours) and 2+1 (object ids) over the first 16 operations; focused 3+1 families (folder renamed and both names used; new folder, folder moved into it, name re-used) and 2+1 from a base with two synchronised folders, all 18 operations; thorough: the quick families plus 1+1 over all 18 operations on 4 flavours (larger 2+1 / 2+2 families ran for more than 50 minutes because of the per-path cost of the constraint and were dropped); the focused families with any disjoint operation on the other side", "slots": "1 (2)"},
         "symbolic": ["operation indices per side under the disjointness constraint", "interleaving positions", "schedule slots"],
         "outside": ["longer sequences", "other base trees", "quick: the generic families leave out the two folder-into-folder moves"],
         "stubs": ["engine lab determinisation"],
